@@ -25,7 +25,8 @@ def run_impl(cmds, hashseed="0", extra_env=None, timeout=1800):
     with tempfile.TemporaryDirectory(prefix="hv_", dir="/var/tmp") as td:
         cf, of = os.path.join(td, "c.txt"), os.path.join(td, "o.txt")
         open(cf, "w").write("\n".join(cmds) + "\n")
-        env = dict(os.environ, PYTHONPATH=REPO_SRC, PYTHONHASHSEED=hashseed, PYTHONDONTWRITEBYTECODE="1")
+        env = dict(os.environ, PYTHONPATH=REPO_SRC, PYTHONHASHSEED=hashseed, PYTHONDONTWRITEBYTECODE="1",
+                   PYTHONPYCACHEPREFIX="/nonexistent/hv-no-pyc")      # (never a cached .pyc: always the source text)
         env.update(extra_env or {})
         p = subprocess.run([PY, os.path.join(HERE, "impl_runner.py"), cf, of], env=env, capture_output=True,
                            text=True, timeout=timeout)
@@ -729,7 +730,8 @@ def _impl_data():
             "json.dump({'table': [list(x) for x in ht.HUFFMAN_TABLE], 'C': ht.HUFFMAN_COMPLETE, 'E': ht.HUFFMAN_EMIT_SYMBOL, 'F': ht.HUFFMAN_FAIL,\n"
             "  'codes': list(hc.REQUEST_CODES), 'lens': list(hc.REQUEST_CODES_LENGTH),\n"
             "  'static': [[n.hex(), v.hex()] for n, v in HeaderTable.STATIC_TABLE]}, sys.stdout)\n")
-    env = dict(os.environ, PYTHONPATH=REPO_SRC, PYTHONHASHSEED="0")
+    env = dict(os.environ, PYTHONPATH=REPO_SRC, PYTHONHASHSEED="0", PYTHONDONTWRITEBYTECODE="1",
+               PYTHONPYCACHEPREFIX="/nonexistent/hv-no-pyc")
     p = subprocess.run([PY, "-c", code], env=env, capture_output=True, text=True, timeout=120)
     if p.returncode != 0:
         return None
